@@ -505,7 +505,17 @@ def handler_loggers_exist(ctx, modname):
             f = c.func
             if isinstance(f, ast.Attribute) and f.attr in ("_debug", "_info", "_warning", "_error", "_exception", "_critical") and isinstance(f.value, ast.Name):
                 n_calls += 1
-                ctx.check("%s:handler-logger[%s.%s@%d]" % (modname, f.value.id, f.attr, n_calls), f.value.id in decorated, where(m, c),
+                okl = f.value.id in decorated
+                if not okl:
+                    # a parameter that every caller binds to a decorated function (a helper told whose logger to use)
+                    fn_ = c
+                    while fn_ is not None and not isinstance(fn_, ast.FunctionDef):
+                        fn_ = getattr(fn_, "_parent", None)
+                    if fn_ is not None and f.value.id in [a_.arg for a_ in fn_.args.args]:
+                        pos = [a_.arg for a_ in fn_.args.args].index(f.value.id)
+                        sites = [x for x in ast.walk(tree) if isinstance(x, ast.Call) and isinstance(x.func, ast.Name) and x.func.id == fn_.name]
+                        okl = bool(sites) and all(len(x.args) > pos and isinstance(x.args[pos], ast.Name) and x.args[pos].id in decorated for x in sites)
+                ctx.check("%s:handler-logger[%s.%s@%d]" % (modname, f.value.id, f.attr, n_calls), okl, where(m, c),
                           "the handler logs through %s.%s, but %s is not decorated with bacpypes_debugging: the handler raises AttributeError instead of containing the failure" % (f.value.id, f.attr, f.value.id))
     return n_calls
 
@@ -541,3 +551,27 @@ def r8(ctx):
         ok = len(calls) == 1 and len(calls[0].args) == 1 and isinstance(calls[0].args[0], ast.Starred) and norm(calls[0].args[0].value) == norm(lp.target.elts[1]) \
             and len(calls[0].keywords) == 1 and calls[0].keywords[0].arg is None and norm(calls[0].keywords[0].value) == norm(lp.target.elts[2])
         ctx.check("core.%s:calls-each-once" % fname, ok, where(m, lp), "each queued function must be called exactly once with its own arguments")
+
+
+@rule("C14.R9", "tasks installed before the task manager exists are handed over in installation order (their tie-breaker numbers follow it)", floor=1, engines="E0")
+def r9(ctx):
+    prog = ctx.prog
+    tm = prog.cls("task", "TaskManager")
+    m = tm.module
+    init = tm.methods["__init__"]
+    uses = [n for n in walk_shallow(init) if isinstance(n, ast.Name) and n.id == "_unscheduled_tasks"]
+    if not uses:
+        raise ShapeError("TaskManager.__init__ does not hand over _unscheduled_tasks")
+    ok = True
+    why = ""
+    for c in calls_in(init):
+        if isinstance(c.func, ast.Attribute) and norm(c.func.value) == "_unscheduled_tasks" and c.func.attr == "pop":
+            if not c.args or prog.try_const(m, c.args[0]) != 0:
+                ok, why = False, "pop() takes the most recently parked task first"
+        if norm(c.func) in ("reversed", "sorted") and c.args and norm(c.args[0]) == "_unscheduled_tasks":
+            ok, why = False, "%s() changes the order" % norm(c.func)
+    for n in walk_shallow(init):
+        if isinstance(n, ast.Subscript) and norm(n.value) == "_unscheduled_tasks" and isinstance(n.slice, ast.Slice) and n.slice.step is not None:
+            ok, why = False, "a stepped slice changes the order"
+    inst = [c for c in calls_in(init) if isinstance(c.func, ast.Attribute) and c.func.attr == "install_task"]
+    ctx.check("TaskManager.__init__:handover-in-order", ok and len(inst) >= 1, where(m, init), "parked tasks must be installed first parked, first installed (%s)" % why)
